@@ -248,7 +248,7 @@ def tla_constants(cfg):
     return {"T": cfg["T"], "NC": cfg["NC"], "D": cfg["D"], "K": cfg["K"],
             "Thr": 1 if cfg["selector"] == "thr1" else 0, "UseLm": bool(cfg["UseLm"]), "M": cfg["M"],
             "SP": cfg["SP"], "SQ": cfg["SQ"], "Bonus": cfg["Bonus"], "Eos": bool(cfg["Eos"]), "H0": cfg["H0"],
-            "Unnorm": bool(cfg.get("Unnorm", False))}
+            "Unnorm": bool(cfg.get("Unnorm", False)), "SampleMats": set()}
 
 
 def base_cfg(**kw):
